@@ -9,14 +9,15 @@ for d in sorted(glob.glob("/verif/seeded/*/")):
     meta = json.load(open(d + "meta.json"))
     r = subprocess.run(["python3", "/verif/tools/try_seed.py", name, prop], stdout=subprocess.PIPE, stderr=subprocess.STDOUT, cwd="/verif")
     out = r.stdout.decode()
-    m = re.search(r"rc=(\d+)\s+mechanism=(\S+)", out)
+    m = re.search(r"rc=(\d+).*?\smechanism=(\S+)", out)
+    nv = re.search(r"violations=(\d+)", out)
     rc = int(re.search(r"rc=(\d+)", out).group(1)) if re.search(r"rc=(\d+)", out) else -1
     rows.append({"seed": name, "property": prop, "check": prop, "caught": rc == 1, "rc": rc,
-                 "mechanism": m.group(2) if m else None, "summary": meta.get("summary", "")[:300], "needs": meta.get("needs", "")[:300]})
+                 "mechanism": m.group(2) if m else None, "violations": int(nv.group(1)) if nv else None, "summary": meta.get("summary", "")[:300], "needs": meta.get("needs", "")[:300]})
     print(name, "CAUGHT" if rc == 1 else f"MISSED rc={rc}", m.group(2) if m else "", flush=True)
 json.dump(rows, open("/verif/seeded/RESULTS.json", "w"), indent=1)
 with open("/verif/seeded/RESULTS.md", "w") as f:
-    f.write("# Seeded defects vs checks (quick tier)\n\n| seed | check | caught | first mechanism reported | what was changed |\n|---|---|---|---|---|\n")
+    f.write("# Seeded defects vs checks (quick tier)\n\n| seed | check | caught | violations in the quick run | first mechanism reported | what was changed |\n|---|---|---|---|---|---|\n")
     for r in rows:
-        f.write(f"| {r['seed']} | {r['check']} | {'yes' if r['caught'] else 'NO'} | {r['mechanism'] or ''} | {r['summary'].replace('|', '/')[:160]} |\n")
+        f.write(f"| {r['seed']} | {r['check']} | {'yes' if r['caught'] else 'NO'} | {r.get('violations')} | {r['mechanism'] or ''} | {r['summary'].replace('|', '/')[:160]} |\n")
 print(sum(r["caught"] for r in rows), "/", len(rows), "caught")
